@@ -3,6 +3,7 @@
 package rt
 
 import (
+	"bufio"
 	"crypto/sha256"
 	"encoding/json"
 	"fmt"
@@ -12,6 +13,7 @@ import (
 	"path/filepath"
 	"sort"
 	"strings"
+	"syscall"
 	"time"
 )
 
@@ -131,6 +133,44 @@ func (c *Ctx) Disagree(sig, what string, replay any) bool {
 	}
 	c.Rep.Violate(sig, what, replay)
 	return false
+}
+
+// EmitAndExit prints the worker's report and ends the process: used by a watcher goroutine when the goroutine that runs
+// the workload is stuck inside the code under test.
+func (c *Ctx) EmitAndExit() {
+	b, _ := json.Marshal(c.Rep)
+	w := bufio.NewWriter(os.Stdout)
+	w.WriteString("REPORT ")
+	w.Write(b)
+	w.WriteString("\n")
+	w.Flush()
+	os.Exit(0)
+}
+
+// CPUWatch starts a watcher for workloads made of short pure calls: progress() returns a counter that the workload
+// advances before every call and cur() describes the call in progress. When one call has consumed more than limit
+// seconds of the process's CPU time (not wall-clock time: a loaded machine does not advance it), stuck(desc) is called
+// from the watcher goroutine.
+func CPUWatch(limit float64, progress func() int64, cur func() string, stuck func(desc string)) {
+	cpu := func() float64 {
+		var ru syscall.Rusage
+		_ = syscall.Getrusage(syscall.RUSAGE_SELF, &ru)
+		return float64(ru.Utime.Sec+ru.Stime.Sec) + float64(ru.Utime.Usec+ru.Stime.Usec)/1e6
+	}
+	go func() {
+		last, since := progress(), cpu()
+		for {
+			time.Sleep(500 * time.Millisecond)
+			if p := progress(); p != last {
+				last, since = p, cpu()
+				continue
+			}
+			if cpu()-since > limit {
+				stuck(cur())
+				return
+			}
+		}
+	}()
 }
 
 // Merge adds o into r.
